@@ -34,8 +34,6 @@ Definition mktx (id ts : N) (extra : option bytes) (es : list entry) : tx :=
 Definition mkr (seek end_ prefix : bytes) (iseek iend desc igndel ignexp : bool) (off : N) : rspec :=
   {| r_seek := seek; r_end := end_; r_prefix := prefix; r_incl_seek := iseek; r_incl_end := iend;
      r_desc := desc; r_ign_deleted := igndel; r_ign_expired := ignexp; r_offset := off |}.
-Definition mkfx (a b c d : bool) : fixes :=
-  {| fx_copy_key := a; fx_own_txid := b; fx_tomb_deleted := c; fx_kvs_cap := d |}.
 Definition mklim (k t : N) : limits := {| maxk := k; maxtx := t |}.
 
 (* what is observed of a ValueRef *)
